@@ -1,0 +1,85 @@
+//go:build verif
+// +build verif
+
+package data
+
+import "math/big"
+
+// Contracts for govc, the contract-based deductive verifier kept in /verif (see /verif/DESIGN.md).
+// Compiled only under the "verif" build tag. be(n) is the minimal big-endian encoding of the natural
+// number n (what big.Int.Bytes returns), beval its inverse (big.Int.SetBytes); both are assumed
+// contracts on math/big (/verif/spec/deps.spec). The documented amount format is one sign byte
+// (0 non-negative, 1 negative) followed by the big-endian magnitude; nil is the single byte 0 and
+// zero is the two bytes 0 0.
+
+//@ def need(a) := ite(a == nil, 1, ite(bigval(a) == 0, 2, len(be(iabs(bigval(a)))) + 1))
+
+//@ func (c *BigIntCaster) Size
+//@   ensures[C14] r == need(a)
+//@   ensures[C14] r >= 1
+
+//@ func (c *BigIntCaster) MarshalTo
+//@   results n, err
+//@   requires a == nil ==> len(buf) >= 1
+//@   ensures[C14] len(buf) < need(a) ==> n == 0 && err != nil
+//@   ensures[C14] len(buf) >= need(a) ==> err == nil && n == need(a)
+//@   ensures[C14] len(buf) >= need(a) && a == nil ==> seq(buf)[0] == 0
+//@   ensures[C14] len(buf) >= need(a) && a != nil ==> seq(buf)[0] == ite(bigval(a) < 0, 1, 0)
+//@   ensures[C14] len(buf) >= need(a) && a != nil && bigval(a) != 0 ==> seq(buf)[1:n] == be(iabs(bigval(a)))
+//@   ensures[C14] len(buf) >= need(a) && a != nil && bigval(a) == 0 ==> seq(buf)[1] == 0
+//@   ensures[C14] a != nil ==> bigval(a) == old(bigval(a))
+//@   modifies elems(buf)
+
+//@ func (c *BigIntCaster) Unmarshal
+//@   results v, err
+//@   ensures[C14] len(buf) == 0 ==> err != nil
+//@   ensures[C14] len(buf) == 1 ==> err == nil && v == nil
+//@   ensures[C14] len(buf) == 2 && seq(buf)[1] == 0 ==> err == nil && v != nil && fresh(v) && bigval(v) == 0
+//@   ensures[C14] len(buf) >= 2 && seq(buf)[0] > 1 && !(len(buf) == 2 && seq(buf)[1] == 0) ==> err != nil && v == nil
+//@   ensures[C14] len(buf) >= 2 && seq(buf)[0] <= 1 ==> err == nil && v != nil && fresh(v)
+//@   ensures[C14] len(buf) >= 2 && seq(buf)[0] <= 1 && !(len(buf) == 2 && seq(buf)[1] == 0) ==> bigval(v) == ite(seq(buf)[0] == 1, 0 - beval(seq(buf)[1:len(buf)]), beval(seq(buf)[1:len(buf)]))
+//@   modifies new(big.Int)
+
+//@ func (c *BigIntCaster) Equal
+//@   requires a == nil || b != nil
+//@   ensures[C14] r == ((a == nil && b == nil) || (a != nil && b != nil && bigval(a) == bigval(b)))
+
+//@ func (c *BigIntCaster) NewPopulated
+//@   ensures r != nil && fresh(r) && bigval(r) == 0
+//@   modifies new(big.Int)
+
+// lemmaAmountRoundTrip: for every amount (nil, zero, positive, negative, of any magnitude) the encoder
+// writes exactly Size bytes into a buffer of that size, whatever the buffer held before, and decoding
+// those bytes yields an equal amount
+func lemmaAmountRoundTrip(c *BigIntCaster, a *big.Int, buf []byte) (*big.Int, error) {
+	size := c.Size(a)
+	if len(buf) < size {
+		return a, nil
+	}
+	n, err := c.MarshalTo(a, buf)
+	if err != nil || n != size {
+		return nil, ErrInvalidValue
+	}
+	return c.Unmarshal(buf[:n])
+}
+
+//@ func lemmaAmountRoundTrip
+//@   results v, err
+//@   ensures[C14] err == nil
+//@   ensures[C14] (a == nil) == (v == nil)
+//@   ensures[C14] a != nil ==> bigval(v) == old(bigval(a))
+//@   modifies elems(buf), new(big.Int)
+
+// lemmaAmountShortBuffer: a buffer shorter than Size is rejected without panicking (for non-nil amounts)
+func lemmaAmountShortBuffer(c *BigIntCaster, a *big.Int, buf []byte) error {
+	if a == nil || len(buf) >= c.Size(a) {
+		return ErrInvalidValue
+	}
+	_, err := c.MarshalTo(a, buf)
+	return err
+}
+
+//@ func lemmaAmountShortBuffer
+//@   results e
+//@   ensures[C14] e != nil
+//@   modifies elems(buf)
